@@ -206,7 +206,29 @@ def strategy(tier):
         st.lists(st.one_of(rec, block, block), min_size=1, max_size=4),
         st.lists(rec, max_size=1),
     )
-    return root
+    @st.composite
+    def wide(draw):
+        """one scope with many (5..14, sometimes 30..45) nested scopes - some empty, some with their own nested scopes, some entered from
+        spawned tasks - and an order-revealing merged view of the root"""
+        kids = []
+        for _ in range(draw(st.one_of(st.integers(5, 14), st.integers(5, 14), st.integers(5, 14), st.integers(5, 14), st.integers(30, 45)))):
+            shape = draw(st.sampled_from(["leaf", "leaf", "empty", "group", "spawned"]))
+            mode = draw(st.sampled_from(["async", "sync", "sync"]))
+            leaf_body = draw(st.lists(rec, min_size=1, max_size=2))
+            mk = lambda body, mode=mode: {"k": "scope", "mode": mode, "name": "k", "state": [], "disp": None, "disp_obj": False, "completion": "sync", "body": body}  # noqa: E731
+            if shape == "leaf":
+                kids.append(mk(leaf_body))
+            elif shape == "empty":
+                kids.append(mk([{"k": "yield"}]))
+            elif shape == "group":
+                # a scope that records nothing itself and only groups recording scopes
+                kids.append(mk([mk(leaf_body, "sync"), *([mk(draw(st.lists(rec, min_size=1, max_size=1)), "sync")] if draw(st.booleans()) else [])]))
+            else:
+                kids.append({"k": "spawn", "via": "ctx", "body": [mk(leaf_body, "sync")]})
+        body = [*draw(st.lists(rec, max_size=1)), *kids, *draw(st.lists(rec, max_size=1))]
+        return {"body": [{"k": "scope", "mode": "async", "name": "root", "state": [], "disp": None, "disp_obj": False, "completion": "sync", "body": body}]}
+
+    return st.one_of(root, root, root, wide())
 
 
 def budget(tier):
